@@ -636,13 +636,12 @@ func checkME(c *vsched.RunCtx, prop string) {
 		replayME(c, prop)
 		return
 	}
-	for _, cfg := range meConfigs(c.Thorough()) {
-		if !c.Mine() {
-			continue
-		}
-		cfg := cfg
+	cfgs := meConfigs(c.Thorough())
+	idx, sub, nsub := c.Split(len(cfgs))
+	for _, i := range idx {
+		cfg := cfgs[i]
 		d := depth
-		res := vsched.BFS(vsched.BFSOpts{Name: "me", Config: cfg.String(), Depth: d, DevPerOp: 1, Deadline: c.Deadline,
+		res := vsched.BFS(vsched.BFSOpts{Name: "me", Config: cfg.String(), Depth: d, DevPerOp: 1, Deadline: c.Deadline, Shard: sub, NShards: nsub,
 			Closure: func(w vsched.World, s *vsched.Sched) { w.(*meWorld).Closure() }},
 			func(s *vsched.Sched) vsched.World { return newMEWorld(s, cfg, prop) })
 		c.Add(res)
